@@ -154,3 +154,22 @@ package cte
 //@   ensures elemOutLen == old(elemOutLen) + uint64(T - (T & (W - 1)))
 //@   ensures endCalls == old(endCalls) ==> len(_this.arrayChunkLeftover) == T & (W - 1) && _this.remainingChunkElements == old(_this.remainingChunkElements) - uint64(T) / uint64(W) && EngineOK(_this)
 //@   may_panic
+
+// ---------------------------------------------------------------------------------------------
+// Version header (C27): the CTE parser reports pre-release version 1 as version 0, exactly like
+// the CBE decoder does (cbe.Decoder.Decode), so both formats accept 0 and 1 alike and the rules
+// validator rejects every other version in both. lastParsed is the number parseSmallUint returned.
+//@ ghost lastParsed uint64
+//@ func parseSmallUint
+//@   trusted
+//@   modifies lastParsed, alloc
+//@   ensures result == lastParsed
+//@   may_panic
+//@ func (*cteListener).wrapPanic
+//@   trusted
+//@   panics r != nil
+//@ func (*cteListener).ExitVersion
+//@   requires _this.eventReceiver != nil && ctx != nil
+//@   modifies ev, lastParsed, alloc
+//@   ensures evLen == old(evLen) + 1 && forwarded(old(evLen), "OnVersion", ite(lastParsed == 1, uint64(0), lastParsed))
+//@   may_panic
